@@ -30,6 +30,8 @@ def run(ctx):
     c15_3(ctx)
     c15_4(ctx)
     c15_5(ctx)
+    from . import c15_verdict
+    c15_verdict.run(ctx)
 
 
 def _find(fb, prefix):
